@@ -982,3 +982,226 @@ Section RTRecord.
     discriminate Hnon.
   Qed.
 End RTRecord.
+
+(* ------------------------------------------------------------ no newline inside rendered lines *)
+
+Definition no_nl (l : bytes) : Prop := has_byte 10 l = false.
+
+Lemma filler_no_nl l : filler_ok l = true -> no_nl l.
+Proof.
+  unfold no_nl. induction l as [|c l IH]; intros H; [reflexivity|].
+  cbn [filler_ok] in H. rewrite has_byte_cons. destruct (c =? 35) eqn:E.
+  - apply N.eqb_eq in E. subst. apply negb_true_iff in H. rewrite H. reflexivity.
+  - destruct (blank c) eqn:Eb; [|discriminate]. rewrite (IH H), orb_false_r.
+    unfold blank in Eb. apply orb_true_iff in Eb as [Eb|Eb]; apply N.eqb_eq in Eb; subst; reflexivity.
+Qed.
+
+Lemma cmt_no_nl c : cmt_ok c = true -> no_nl c.
+Proof.
+  unfold no_nl. destruct c as [|x t]; [reflexivity|]. cbn [cmt_ok]. intros H.
+  apply andb_true_iff in H as [Hx Ht]. apply N.eqb_eq in Hx. subst. apply negb_true_iff in Ht.
+  rewrite has_byte_cons, Ht. reflexivity.
+Qed.
+
+Lemma field_line_no_nl k v fs : fstyle_ok fs = true -> has_byte 10 v = false -> no_nl (field_line k v fs).
+Proof.
+  intros Hfs Hv. destruct (fstyle_ok_parts fs Hfs) as [W1 [W2 Wc]]. unfold no_nl, field_line.
+  replace (key_name k ++ [58] ++ fs_ws1 fs ++ v ++ fs_ws2 fs ++ fs_cmt fs)
+    with ((key_name k ++ [58] ++ fs_ws1 fs ++ v ++ fs_ws2 fs) ++ fs_cmt fs) by (norm_app; reflexivity).
+  rewrite has_byte_app, text_no, (cmt_no_nl _ Wc); auto.
+Qed.
+
+Lemma body_lines_no_nl indent items : all_blank indent = true -> Forall no_nl items ->
+  Forall no_nl (body_lines indent items).
+Proof.
+  intros Hi. induction 1 as [|it items Hit Hrest IH]; [constructor|].
+  destruct items as [|it2 rest].
+  - constructor; [|constructor]. unfold no_nl in *. rewrite has_byte_app, Hit, (has_byte_blank 10 indent Hi); reflexivity.
+  - change (body_lines indent (it :: it2 :: rest)) with ((indent ++ it ++ [44]) :: body_lines indent (it2 :: rest)).
+    constructor; [|exact IH]. unfold no_nl in *.
+    rewrite !has_byte_app, Hit, (has_byte_blank 10 indent Hi); reflexivity.
+Qed.
+
+Lemma counter_lines_no_nl c sty : fstyle_ok (rs_f sty KCounter) = true -> all_blank (rs_indent sty) = true ->
+  has_byte 10 c = false -> Forall no_nl (counter_lines c sty).
+Proof.
+  intros Hfs Hi Hc. unfold counter_lines. destruct (is_empty c); [constructor|].
+  destruct (if rs_multi sty then split_braces c else None) as [[[pre body] post]|] eqn:E.
+  - destruct (rs_multi sty); [|discriminate].
+    destruct (braces_decomp c pre body post E) as [Ed _].
+    rewrite Ed in Hc. apply has_byte_app_false in Hc as [N1 N2]. rewrite has_byte_cons in N2.
+    apply orb_false_iff in N2 as [_ N2]. apply has_byte_app_false in N2 as [N2 N3].
+    rewrite has_byte_cons in N3. apply orb_false_iff in N3 as [_ N3].
+    destruct (fstyle_ok_parts _ Hfs) as [W1 [W2 Wc]].
+    constructor.
+    + unfold no_nl.
+      rewrite app_assoc, has_byte_app, (key_colon_no KCounter 10), !has_byte_app, N1,
+        (has_byte_blank 10 _ W1), (has_byte_blank 10 _ W2), (cmt_no_nl _ Wc) by auto. reflexivity.
+    + apply Forall_app. split.
+      * apply body_lines_no_nl; [exact Hi|]. apply split_byte_has_byte. exact N2.
+      * constructor; [|constructor]. unfold no_nl. rewrite has_byte_cons, N3. reflexivity.
+  - constructor; [|constructor]. apply field_line_no_nl; assumption.
+Qed.
+
+Lemma opt_plain_no_nl v : opt_plain v = true -> has_byte 10 v = false.
+Proof.
+  unfold opt_plain. destruct v as [|x v]; [reflexivity|]. cbn [is_empty orb]. intros H.
+  apply plain_value_parts in H as [H _]. apply valid_value_parts in H as [_ [H _]]. exact H.
+Qed.
+
+Lemma opt_line_no_nl k v sty : fstyle_ok (rs_f sty k) = true -> opt_plain v = true -> Forall no_nl (opt_line k v sty).
+Proof.
+  intros Hfs Hv. unfold opt_line. destruct (is_empty v); [constructor|].
+  constructor; [|constructor]. apply field_line_no_nl; [exact Hfs | apply opt_plain_no_nl; exact Hv].
+Qed.
+
+Section RTAll.
+  Variable pf : bytes -> option N.
+  Variable rf : N -> bytes.
+
+  Definition item_valid (it : chart * rstyle) : Prop :=
+    valid_record pf rf (fst it) = true /\ style_ok (fst it) (snd it) = true.
+
+  Lemma record_lines_no_nl r sty : valid_record pf rf r = true -> style_ok r sty = true ->
+    Forall no_nl (record_lines rf r sty).
+  Proof.
+    intros Hv Hs. unfold valid_record in Hv.
+    apply andb_true_iff in Hv as [Hv Hnon]. apply andb_true_iff in Hv as [Hv Vve].
+    apply andb_true_iff in Hv as [Hv Ver]. apply andb_true_iff in Hv as [Hv Vdp].
+    apply andb_true_iff in Hv as [Hv Vcn]. apply andb_true_iff in Hv as [Hv Vmo].
+    apply andb_true_iff in Hv as [Hv Vpr]. apply andb_true_iff in Hv as [Hv Vty].
+    apply andb_true_iff in Hv as [Hv Vis]. apply andb_true_iff in Hv as [Vti Vde].
+    unfold style_ok in Hs.
+    apply andb_true_iff in Hs as [Hs Smulti]. apply andb_true_iff in Hs as [Hs Sind].
+    apply andb_true_iff in Hs as [Hs Sf]. apply andb_true_iff in Hs as [Spre Spost].
+    assert (forall k, fstyle_ok (rs_f sty k) = true) as Hfs.
+    { intros k. rewrite forallb_forall in Sf. apply Sf. destruct k; cbn; auto 12. }
+    unfold record_lines. repeat (apply Forall_app; split).
+    - destruct (rs_sep sty); [constructor; [reflexivity | constructor] | constructor].
+    - rewrite forallb_forall in Spre. apply Forall_forall. intros l Hl. apply filler_no_nl, Spre, Hl.
+    - apply counter_lines_no_nl; try apply Hfs; try assumption.
+      unfold valid_counter in Vcn. destruct (c_counter r) as [|x c] eqn:E; [reflexivity|].
+      cbn [is_empty orb] in Vcn. apply andb_true_iff in Vcn as [Vv _].
+      apply valid_value_parts in Vv as [_ [Vv _]]. exact Vv.
+    - apply opt_line_no_nl; auto.
+    - apply opt_line_no_nl; auto.
+    - apply Forall_forall. intros l Hl. apply in_map_iff in Hl as [v [<- Hin]].
+      apply field_line_no_nl; [apply Hfs|]. rewrite forallb_forall in Vis. specialize (Vis v Hin).
+      apply plain_value_parts in Vis as [Vis _]. apply valid_value_parts in Vis as [_ [Vis _]]. exact Vis.
+    - apply opt_line_no_nl; auto.
+    - apply opt_line_no_nl; auto.
+    - apply opt_line_no_nl; auto.
+    - apply opt_line_no_nl; auto.
+    - destruct (c_depth r =? 0)%Z eqn:E; [constructor|]. constructor; [|constructor].
+      apply field_line_no_nl; [apply Hfs|]. apply Z.eqb_neq in E.
+      pose proof (render_int_plain _ Vdp E) as P. apply plain_value_parts in P as [P _].
+      apply valid_value_parts in P as [_ [P _]]. exact P.
+    - destruct (c_error r =? 0) eqn:E; [constructor|]. constructor; [|constructor].
+      apply field_line_no_nl; [apply Hfs|]. unfold float_ok in Ver. rewrite E in Ver. cbn [orb] in Ver.
+      apply andb_true_iff in Ver as [P _]. apply plain_value_parts in P as [P _].
+      apply valid_value_parts in P as [_ [P _]]. exact P.
+    - rewrite forallb_forall in Spost. apply Forall_forall. intros l Hl. apply filler_no_nl, Spost, Hl.
+  Qed.
+
+  Lemma render_lines_no_nl items : Forall item_valid items -> Forall no_nl (render_lines rf items).
+  Proof.
+    induction 1 as [|[r s] items [Hv Hs] Hrest IH]; [constructor|].
+    cbn [fst snd] in *.
+    destruct items as [|it items]; cbn [render_lines].
+    - apply record_lines_no_nl; assumption.
+    - apply Forall_app. split; [apply record_lines_no_nl; assumption|].
+      constructor; [reflexivity | exact IH].
+  Qed.
+
+  Lemma parse_lines_app st n l1 l2 st' : steps pf st l1 = Some st' ->
+    parse_lines pf st n (l1 ++ l2) = parse_lines pf st' (n + N.of_nat (length l1)) l2.
+  Proof.
+    revert st n; induction l1 as [|l l1 IH]; intros st n H; cbn [steps app parse_lines length] in *.
+    - injection H as <-. f_equal. lia.
+    - destruct (step pf st l) as [st1|]; [|discriminate].
+      rewrite (IH st1 (n + 1) H). f_equal. lia.
+  Qed.
+
+  Lemma parse_lines_render items : forall done n, Forall item_valid items ->
+    parse_lines pf (mkSt done empty_chart [] []) n (render_lines rf items ++ [[]])
+    = POk (done ++ map fst items).
+  Proof.
+    induction items as [|[r s] items IH]; intros done n Hall.
+    - cbn [render_lines app parse_lines map]. rewrite (step_filler pf (mkSt done empty_chart [] []) [] eq_refl eq_refl).
+      cbn [parse_lines]. unfold finish, flush. cbn. rewrite app_nil_r. reflexivity.
+    - inversion Hall as [|? ? [Hv Hs] Hrest]; subst. cbn [fst snd] in *.
+      destruct (steps_record pf rf done r s Hv Hs) as [set [Hset Hsteps]].
+      destruct items as [|it items].
+      + cbn [render_lines map].
+        rewrite (parse_lines_app _ n _ [[]] _ Hsteps). cbn [parse_lines].
+        rewrite (step_filler pf (mkSt done r set []) [] eq_refl eq_refl). cbn [parse_lines].
+        unfold finish, flush. cbn [st_acc st_set st_done st_cur is_empty].
+        destruct set; [contradiction | reflexivity].
+      + change (render_lines rf ((r, s) :: it :: items))
+          with (record_lines rf r s ++ sep_line :: render_lines rf (it :: items)).
+        rewrite <- app_assoc.
+        rewrite (parse_lines_app _ n _ _ _ Hsteps).
+        cbn [app parse_lines].
+        assert (step pf (mkSt done r set []) sep_line = inl (mkSt (done ++ [r]) empty_chart [] [])) as ->.
+        { unfold step, flush. cbn. destruct set; [contradiction | reflexivity]. }
+        rewrite IH by exact Hrest. cbn [map fst]. rewrite <- app_assoc. reflexivity.
+  Qed.
+
+  (* The main theorem: every list of valid records, rendered with any valid
+     layout, parses back to exactly those records. *)
+  Theorem parse_render items : Forall item_valid items ->
+    parse pf (render rf items) = POk (map fst items).
+  Proof.
+    intros Hall. unfold parse, render.
+    rewrite split_unlines.
+    - apply (parse_lines_render items [] 0 Hall).
+    - apply Forall_forall. intros l Hl.
+      pose proof (render_lines_no_nl items Hall) as P. rewrite Forall_forall in P. apply P. exact Hl.
+  Qed.
+
+  Lemma canon_style_ok multi r : multi_ok (c_counter r) (canon_rs multi) = true -> style_ok r (canon_rs multi) = true.
+  Proof. intros H. unfold style_ok. rewrite H. reflexivity. Qed.
+
+  Corollary parse_render_canonical multi rs :
+    Forall (fun r => valid_record pf rf r = true /\ multi_ok (c_counter r) (canon_rs multi) = true) rs ->
+    parse pf (render_canonical rf multi rs) = POk rs.
+  Proof.
+    intros Hall. unfold render_canonical. rewrite parse_render.
+    - rewrite map_map. cbn [fst]. rewrite map_id. reflexivity.
+    - apply Forall_forall. intros it Hin. apply in_map_iff in Hin as [r [<- Hr]].
+      rewrite Forall_forall in Hall. destruct (Hall r Hr) as [Hv Hm].
+      split; [exact Hv | apply canon_style_ok; exact Hm].
+  Qed.
+
+  (* the executable oracle accepts exactly the expected answer *)
+  Lemma list_eqb_refl {A} (eq : A -> A -> bool) l : (forall x, eq x x = true) -> list_eqb eq l l = true.
+  Proof. intros H. induction l; cbn; [reflexivity | rewrite H, IHl; reflexivity]. Qed.
+  Lemma chart_eqb_refl c : chart_eqb c c = true.
+  Proof.
+    unfold chart_eqb. rewrite !beq_refl, Z.eqb_refl, N.eqb_refl, (list_eqb_refl beq _ beq_refl). reflexivity.
+  Qed.
+  Lemma list_eqb_eq {A} (eq : A -> A -> bool) : (forall x y, eq x y = true -> x = y) ->
+    forall a b, list_eqb eq a b = true -> a = b.
+  Proof.
+    intros H. induction a as [|x a IH]; intros [|y b] E; try discriminate; [reflexivity|].
+    cbn in E. apply andb_true_iff in E as [E1 E2]. f_equal; [apply H; exact E1 | apply IH; exact E2].
+  Qed.
+  Lemma chart_eqb_eq a b : chart_eqb a b = true -> a = b.
+  Proof.
+    unfold chart_eqb. intros H. repeat (apply andb_true_iff in H as [H ?]).
+    destruct a, b. cbn in *.
+    repeat match goal with
+           | E : beq _ _ = true |- _ => apply beq_eq in E
+           | E : list_eqb beq _ _ = true |- _ => apply (list_eqb_eq beq (fun x y => proj1 (beq_eq x y))) in E
+           | E : (_ =? _)%Z = true |- _ => apply Z.eqb_eq in E
+           | E : (_ =? _) = true |- _ => apply N.eqb_eq in E
+           end.
+    congruence.
+  Qed.
+  Theorem roundtrip_ok_iff rs res : roundtrip_ok rs res = true <-> res = POk rs.
+  Proof.
+    unfold roundtrip_ok. destruct res as [ln e|got]; split; intro H; try discriminate.
+    - f_equal. symmetry. apply (list_eqb_eq chart_eqb chart_eqb_eq). exact H.
+    - injection H as ->. apply list_eqb_refl. apply chart_eqb_refl.
+  Qed.
+End RTAll.
